@@ -658,7 +658,10 @@ public:
           // Read the pointee through the sandbox's representation of the type
           // (its size/encoding may differ from the application's), using the
           // pointer value that was checked above
-          auto val_checked = tainted<T, T_Sbx>::internal_factory(val);
+          // (through a pointer to the unqualified pointee: the sandbox's
+          // representation is defined for the type, not for its cv variants)
+          auto val_checked = tainted<T_Deref*, T_Sbx>::internal_factory(
+            const_cast<T_Deref*>(val));
           auto val_copy = std::make_unique<T_Deref>();
           *val_copy = (*val_checked).get_raw_value();
           return verifier(std::move(val_copy));
